@@ -32,7 +32,12 @@ def run_c04(tier, seed, rep, only_prop=False, scale=1):
         labels, span = G.gen_labels(rng, tier)
         o = dist_opts(rng, labels)
         mode = "exact" if k % 2 else "float"
-        cs.append((I.run_dist(labels, o, mode), {"kind": "dist", "labels": labels, "opts": o, "mode": mode}))
+        try:
+            cs.append((I.run_dist(labels, o, mode), {"kind": "dist", "labels": labels, "opts": o, "mode": mode}))
+        except RecursionError:
+            rep.count("recursion-error(F3)")
+        except Exception as e:
+            rep.prop_fail.append(("Distributor.distribute raised %s: %s" % (type(e).__name__, e), {"case": {"kind": "dist", "labels": labels, "opts": o, "mode": mode}}))
     rng = rng_for(seed, "c04-force")
     for k in range(n2):
         labels, span = G.gen_labels(rng, tier, nmax=100)
@@ -42,6 +47,9 @@ def run_c04(tier, seed, rep, only_prop=False, scale=1):
             fl, _, _, _ = I.run_force(labels, o, mode, want_layer_lines=False)
         except RecursionError:
             rep.count("recursion-error(F3)")
+            continue
+        except Exception as e:
+            rep.prop_fail.append(("Force.compute raised %s: %s" % (type(e).__name__, e), {"case": {"kind": "force", "labels": labels, "opts": o, "mode": mode}}))
             continue
         cs.append((fl, {"kind": "force", "labels": labels, "opts": o, "mode": mode}))
     # the layering must be exact after EVERY layout, also of nodes that carry stubs / layer numbers of an earlier layout
@@ -53,6 +61,9 @@ def run_c04(tier, seed, rep, only_prop=False, scale=1):
             res = I.run_history(ops, mode)
         except RecursionError:
             rep.count("recursion-error(F3)")
+            continue
+        except Exception as e:
+            rep.prop_fail.append(("Force.compute raised %s in a history: %s" % (type(e).__name__, e), {"case": {"kind": "history", "ops": ops, "mode": mode, "compute_no": 0}}))
             continue
         for j, (fl, placed, acc, labs) in enumerate(res):
             cs.append((fl, {"kind": "history", "ops": ops, "mode": mode, "compute_no": j, "acc": acc, "labels": labs, "opts": acc}))
@@ -128,6 +139,9 @@ def run_c06(tier, seed, rep, only_prop=False, scale=1):
             r2 = I.run_history([("new", o), ("nodes", perm), ("compute",)], mode)
         except RecursionError:
             rep.count("recursion-error(F3)")
+            continue
+        except Exception as e:
+            rep.prop_fail.append(("Force.compute raised %s in a history: %s" % (type(e).__name__, e), {"case": {"kind": "history", "ops": ops, "mode": mode, "compute_no": 0}}))
             continue
         for j, (fl, placed, acc, labs) in enumerate(res):
             lines.append(fl); metas.append({"kind": "history", "ops": ops, "mode": mode, "compute_no": j, "acc": acc, "labels": labs})
